@@ -537,8 +537,7 @@ func runRace(rep *lib.Report, joinCode int) {
 	reps := "1"
 	masks := "0,1,7,9,15"
 	if lib.Thorough() {
-		progs = append(progs, "testdata:taint/closures", "testdata:taint/globals")
-		reps = "3"
+		reps = "2"
 		masks = "0,1,2,3,4,5,6,7,8,9,10,11,12,13,14,15"
 	}
 	logPrefix := filepath.Join(work, "racelog")
@@ -547,7 +546,7 @@ func runRace(rep *lib.Report, joinCode int) {
 	if _, err := exec.LookPath("taskset"); err == nil {
 		cpuSets = []string{"", "0-1"}
 		if lib.Thorough() {
-			cpuSets = append(cpuSets, "0", "0-3", "0-7")
+			cpuSets = append(cpuSets, "0-3")
 		}
 	}
 	type runLine struct {
@@ -557,8 +556,21 @@ func runRace(rep *lib.Report, joinCode int) {
 	}
 	var runs []runLine
 	var childErr []string
-	for ci, cs := range cpuSets {
-		cargs := append([]string{bin, work, reps, masks}, progs...)
+	type raceRun struct {
+		cpus, reps, masks string
+		progs             []string
+	}
+	var rruns []raceRun
+	for _, cs := range cpuSets {
+		rruns = append(rruns, raceRun{cs, reps, masks, progs})
+	}
+	if lib.Thorough() {
+		// one program that imports the standard library (the race build of the pointer analysis is slow)
+		rruns = append(rruns, raceRun{"", "1", "1,9", []string{"testdata:taint/closures"}})
+	}
+	for ci, rr := range rruns {
+		cs := rr.cpus
+		cargs := append([]string{bin, work, rr.reps, rr.masks}, rr.progs...)
 		var c *exec.Cmd
 		if cs == "" {
 			c = exec.Command(cargs[0], cargs[1:]...)
